@@ -146,6 +146,18 @@ func bidx(c *Ctx, rule string, funcs []*ssa.Function, exempt map[string]string) 
 				c.Notes = append(c.Notes, "exempt "+key+": "+why)
 				continue
 			}
+			// long constructs: an exemption key ending in * matches by prefix (still one named site)
+			matched := false
+			for ek, why := range exempt {
+				if strings.HasSuffix(ek, "*") && strings.HasPrefix(key, strings.TrimSuffix(ek, "*")) {
+					c.Notes = append(c.Notes, "exempt "+key+": "+why)
+					matched = true
+					break
+				}
+			}
+			if matched {
+				continue
+			}
 			c.Violated(rule, fname(f), construct, "no dominating guard proves this "+s.Kind+" in bounds for every input (not discharged by the compiler's prove pass nor by LinBounds)", s.Instr.Pos())
 		}
 		if d := time.Since(t0); d > time.Second {
